@@ -324,7 +324,16 @@ def discharge_all(obligations, axioms, timeout_ms=10000, seed=0, jobs=8, single_
             }
             # next round works only on the parts that failed, and only if splitting them changes anything
             ob._parts = [(hyps, g) for _, _, _, hyps, g in failed]
-            if worst != "error" and (not ext or rnd == 3):
+            # a part that hit the WALL-clock safety net (4x its nominal budget, the resource limit still unspent) in
+            # the extended round is not given the retry round: that query does not consume z3's resource units, so
+            # the deterministic budget cannot bound it and another, longer try would cost many minutes for nothing
+            wall_hit = ext and any(
+                (info.get("reason") or "") in ("timeout", "canceled") or "hard timeout" in (info.get("reason") or "")
+                for _, st, info, _, _ in failed if st == "unknown")
+            # (a worker that had to be killed - z3 did not even honour its own wall-clock timeout - ends the
+            # escalation in any round)
+            wall_hit = wall_hit or any("hard timeout" in (info.get("reason") or "") for _, _, info, _, _ in failed)
+            if worst != "error" and (not ext or rnd == 3) and not wall_hit:
                 still.append(ob)
         return still
 
